@@ -5,9 +5,13 @@ V = os.path.dirname(os.path.dirname(os.path.abspath(__file__)))
 table = json.load(open(os.path.join(V, "checks.json")))
 meta = json.load(open(os.path.join(V, "tools", "manifest_meta.json")))
 import glob
+ready = set(table.get("ready_engines", []))
 for p in sorted(glob.glob(os.path.join(V, "sim", "*", "checks.json"))):
-    table["checks"].update(json.load(open(p))["checks"])
+    if os.path.basename(os.path.dirname(p)) in ready:
+        table["checks"].update(json.load(open(p))["checks"])
 for p in sorted(glob.glob(os.path.join(V, "sim", "*", "manifest_meta.json"))):
+    if os.path.basename(os.path.dirname(p)) not in ready:
+        continue
     mm = json.load(open(p))
     for pid, v in mm.get("claimed", {}).items():
         meta["claimed"][pid] = v
